@@ -420,9 +420,9 @@ class PathRunner(object):
             B.restore(self.base_image, 'default')
             B.reset_globals()
             res = D.d1(R.load_sig(self.base_sig), steps, real=real)
-            if way == 'W2' and res.ok and res.first_pass_sig is not None:
+            if way == 'W2' and res.ok and res.second_pass_sig is not None:
                 ok12, d12 = R.sig_equal(
-                    sub_sig(res.first_pass_sig, self.labels),
+                    sub_sig(res.second_pass_sig, self.labels),
                     sub_sig(res.sig, self.labels))
                 if not ok12:
                     extra.append('passes-differ')
